@@ -7,6 +7,7 @@ mod c29;
 mod relocs;
 mod c16;
 mod c02;
+mod c15;
 
 fn main() {
     std::panic::set_hook(Box::new(|_| {}));
@@ -19,6 +20,7 @@ fn main() {
         "c12" => relocs::c12,
         "c16" => c16::run_case,
         "c02" => c02::run_case,
+        "c15" => c15::run_case,
         _ => {
             eprintln!("unknown subcommand {cmd}");
             std::process::exit(2);
